@@ -306,7 +306,7 @@ func TestPropScriptSet(t *testing.T) {
 }
 
 type langSetCase struct {
-	Langs []int `json:"langs"` // LangID values added
+	Langs []int    `json:"langs"`           // LangID values added
 	Words []uint64 `json:"words,omitempty"` // or: raw content (8 words)
 }
 
